@@ -529,6 +529,21 @@ def item_sexps(parsed, nodes):
     return items
 
 
+def call_argument_vars(parsed, nodes):
+    """ids of the variables that are arguments of non-intrinsic calls in the region (they get
+    a READWRITE access)"""
+    from psyclone.psyir.nodes import Call, IntrinsicCall, Reference
+    out = set()
+    for n in nodes:
+        for c in n.walk(Call):
+            if isinstance(c, IntrinsicCall):
+                continue
+            for arg in c.arguments:
+                if isinstance(arg, Reference):
+                    out.add(parsed.vid(str(arg.get_signature_and_indices()[0])))
+    return sorted(out)
+
+
 def has_codeblock(nodes):
     from psyclone.psyir.nodes import CodeBlock
     return any(n.walk(CodeBlock) for n in nodes)
